@@ -68,6 +68,15 @@ def _bind_site(ctx, finfo, flow, s):
     b = _bind_in_stmt(s, st, s.call, recv)
     if b is not None:
         return b
+    # (1b) rows = cursor.execute(...)[.fetchall()] ; ... rows consumed later
+    if isinstance(st, ast.Assign) and len(st.targets) == 1 and isinstance(st.targets[0], ast.Name):
+        v = st.value
+        if isinstance(v, ast.Call) and isinstance(v.func, ast.Attribute) and v.func.attr == "fetchall" and v.func.value is s.call:
+            v = s.call
+        if isinstance(v, ast.Call) and isinstance(v.func, ast.Name) and v.func.id == "list" and len(v.args) == 1 and v.args[0] is s.call:
+            v = s.call
+        if v is s.call:
+            recv = st.targets[0].id
     # (2) bare `cursor.execute(...)` statement: look at following statements
     # that consume the same receiver before it is executed again
     n = flow.cfg.node(st)
